@@ -67,8 +67,17 @@ CHECKS = {
         "pobs": "scope",
         "technique": "Lean 4 proof (GetCaveats = caveats nested anywhere; a definite denial propagates through any depth of conditionals; refinement of each helper to a declarative spec over all caveat sets) + differential correspondence model/Go + brute-force CaveatSet.Validate oracle over the id universe",
         "design_ref": "DESIGN.md §3 C17",
-        "text": "getCaveats_finds_nested, nested_denial_denies_set, orgScope_sound, appScope_sound, clusterScope_sound, appsAllowing_sound (the list is exactly the app ids whose request clears; nil => every id clears), expiration_is_window_end, expiration_is_earliest, expiration_sound / verifiedExpiration_sound, window_in_conditional_always_applies are proved for every caveat set of the registered universe (wrappers nested arbitrarily), every request type and action. Helper results are compared with the model; spec.scope.* lines compare each helper answer with brute-force Validate over ids x actions x request shapes (observable sound / unsound:<clause>:<id>).",
+        "text": "getCaveats_finds_nested, nested_denial_denies_set, orgScope_sound, appScope_sound, clusterScope_sound (full, after the repair of F11; preFix_clusterScope_left_out_may_clear is the old code's counterexample), appsAllowing_sound (the list is exactly the app ids whose request clears; nil => every id clears), expiration_is_window_end, expiration_is_earliest, expiration_sound / verifiedExpiration_sound, window_in_conditional_always_applies are proved for every caveat set of the registered universe (wrappers nested arbitrarily), every request type and action. Helper results are compared with the model; spec.scope.* lines compare each helper answer with brute-force Validate over ids x actions x request shapes (observable sound / unsound:<clause>:<id>).",
         "note": "tie is differential (family scope); P-observable = the oracle verdict of the spec.scope.* lines, helper results are fidelity observables. AppsAllowing reads the wall clock through flyio.Access.Now(): it is an explicit model input, generated windows stay >= 1h from it. Order independence of the sorted results is exercised, not proved.",
+    },
+    "C16": {
+        "props": "Macaroon.Props.C16",
+        "families": ["tp"],
+        "pobs": "tp",
+        "technique": "Lean 4 proof (invariants by induction over arbitrary action lists for the handler-level state machine, and over arbitrary schedules for the store-operation semantics in which concurrent handlers interleave at every store call) + differential correspondence against the real tp.TP/MemoryStore driven in-process through httptest, with a wrapping tp.Store that parks every store operation so that the exact interleaving is replayed on the model",
+        "design_ref": "DESIGN.md §3 C16",
+        "text": "discharge_only_after_approval, not_ready_before_decision, abort_delivers_error, approve_delivers_discharge, gone_after_collection, unknown_secret_not_found, cross_used_secret_not_found, bad_ticket_short_circuits, not_found_is_silent are proved for every history (any number of flows, any secrets presented, arbitrary LRU evictions); il_discharge_only_after_approval, il_unknown_secret_not_found, il_cross_used_not_inserted and il_gone_after_collection_hb (happens-before form: handlers that start after a delivering poll returned) are proved for every interleaving of store operations; sequential_schedule_refines ties the two semantics; racing_polls_both_answered records (decide) that two polls racing on one secret can both be answered because DeleteByPollSecret is get-then-remove - not a violation, the property speaks about polls after collection. Partial: the concurrent half rests on every store operation being atomic (LRU lock, per-record RWMutex), Delete split in two.",
+        "note": "tie is differential (family tp): random histories (<=20 actions, 1-4 flows) with real tickets (valid, bit-flipped, foreign-key, empty, garbage, unparsable request) and right/wrong/swapped/never-issued/empty secrets; every returned discharge is verified against every pool token; sched lines replay the exact store-operation interleaving incl. the store-operation log; LRU evictions are observed after each Insert and fed to the model. Idealised: BLAKE2b injective, 128-bit secrets fresh and unguessable, discharge cryptography abstracted (C04/C05), one responder call per init request.",
     },
 }
 
